@@ -11,6 +11,7 @@ import (
 	"verif/engine/vs"
 	"verif/engine/vtime"
 	"verif/fw"
+	"verif/refws/frame"
 )
 
 // C10, a call of another goroutine that has no context of its own (Close, CloseRead's
@@ -75,6 +76,95 @@ func c10CloseSetup(k connCfg, api string) func(c *fw.Ctx, name string) explore.S
 	}
 }
 
+// C10, calls made after the connection was closed by something else, with their own live
+// context that is cancelled 1 s later: (writer-after-close) a Writer was obtained and written to,
+// the connection is then closed (CloseNow by another goroutine, the peer's Close frame met by a
+// reader, another call's context expiring), and Write is called on the open Writer;
+// (read-dup-pongs) a Ping's frame is stuck in the transport while the peer sends two Pongs with
+// its payload, the Ping's context ends, and the reader's context is cancelled. Every call returns
+// at the latest promptly after its own cancellation.
+func c10AfterCloseSetup(k connCfg, kind, how string) func(c *fw.Ctx, name string) explore.Setup {
+	return func(c *fw.Ctx, name string) explore.Setup {
+		return func(w *vs.World) func(bool) {
+			p := vpipe.New()
+			var err error
+			returned := false
+			var cancelAt, retAt int64
+			w.GoHarness("main", true, func() {
+				conn := mkConn(p, k)
+				bg := vctx.Background()
+				ctx, cancel := vctx.WithCancel(bg)
+				w.GoHarness("canceller", false, func() {
+					vtime.Sleep(3 * time.Second)
+					cancelAt = w.Now
+					cancel()
+				})
+				switch kind {
+				case "writer-after-close":
+					wr, werr := conn.Writer(ctx, websocket.MessageBinary)
+					if werr != nil {
+						returned, err = true, werr
+						return
+					}
+					wr.Write(fill(0xA1, 10))
+					switch how {
+					case "CloseNow":
+						conn.CloseNow()
+					case "peerClose":
+						p.Send(peerClose(k, 1000, "bye"))
+						conn.Read(bg)
+					case "otherCtx":
+						c2, cancel2 := vctx.WithTimeout(bg, 100*time.Millisecond)
+						conn.Read(c2)
+						cancel2()
+					}
+					vs.Quiesce()
+					_, err = wr.Write(fill(0xA2, 5000))
+					if err == nil {
+						err = wr.Close()
+					}
+					retAt = w.Now
+					returned = true
+				case "read-dup-pongs":
+					p.Window = 1
+					w.GoHarness("pinger", false, func() {
+						pc, pcancel := vctx.WithTimeout(bg, time.Second)
+						conn.Ping(pc)
+						pcancel()
+					})
+					w.GoHarness("peer", false, func() {
+						vtime.Sleep(200 * time.Millisecond)
+						for i := 0; i < 3; i++ {
+							p.Send(peerFrame(k, frame.Frame{Fin: true, Opcode: frame.OpPong, Payload: []byte("1")}))
+						}
+					})
+					_, _, err = conn.Read(ctx)
+					retAt = w.Now
+					returned = true
+				}
+			})
+			return func(complete bool) {
+				if !complete {
+					return
+				}
+				role := k.String()
+				if w.Panic != "" {
+					violate(c, w, name, "C10/panic/"+role, w.Panic)
+					return
+				}
+				c.OutcomeStr(fmt.Sprintf("%s|ret=%v|err=%v|closed=%v", name, returned, err != nil, p.Closed))
+				if !returned {
+					violate(c, w, name, "C10/call-never-returns/"+kind+"/cancelled/"+role, fmt.Sprintf("%s (%s): the call's own context was cancelled at 3 s; the call never returned: stuck %v", kind, how, stuckTasks(w)))
+					return
+				}
+				if cancelAt > 0 && retAt > cancelAt && retAt-cancelAt > int64(time.Second) {
+					violate(c, w, name, "C10/cancelled-call-not-prompt/"+kind+"/"+role, fmt.Sprintf("%s (%s): the call's own context was cancelled at 3 s but the call returned %v later (err=%v)", kind, how, time.Duration(retAt-cancelAt), err))
+				}
+			}
+		}
+	}
+}
+
 func c10CloseScenarios(tier string) []scenario {
 	var scs []scenario
 	p := 1
@@ -84,6 +174,14 @@ func c10CloseScenarios(tier string) []scenario {
 	for _, k := range []connCfg{{Client: false}, {Client: true}} {
 		for _, api := range []string{"Read", "Write"} {
 			scs = append(scs, scenario{Name: "close-behind-blocked-" + api + "/" + k.String(), Cfg: explore.Config{P: p, T: 1, Horizon: 120e9}, Setup: c10CloseSetup(k, api)})
+		}
+	}
+	for _, k := range []connCfg{{Client: false}, {Client: true}, {Client: false, Flate: true, Thr: 1}} {
+		for _, how := range []string{"CloseNow", "peerClose", "otherCtx"} {
+			scs = append(scs, scenario{Name: "writer-after-close-" + how + "/" + k.String(), Cfg: explore.Config{P: p, T: 1, Horizon: 120e9}, Setup: c10AfterCloseSetup(k, "writer-after-close", how)})
+		}
+		if !k.Flate {
+			scs = append(scs, scenario{Name: "read-dup-pongs/" + k.String(), Cfg: explore.Config{P: p, T: 1, Horizon: 120e9}, Setup: c10AfterCloseSetup(k, "read-dup-pongs", "")})
 		}
 	}
 	return scs
